@@ -15,6 +15,8 @@ pub struct Abs {
     pub cap: usize,
     /// slot partition violated (the tree walk itself succeeded)
     pub slots_err: Option<String>,
+    /// a parent field disagrees with the child link it was reached through (walk continued on child links)
+    pub links_err: Option<String>,
 }
 
 pub fn abs<T>(s: &VerifSnapshot<T>, ent: &dyn Fn(&T) -> (i64, i64, i64)) -> Result<Abs, String> {
@@ -34,6 +36,7 @@ pub fn abs<T>(s: &VerifSnapshot<T>, ent: &dyn Fn(&T) -> (i64, i64, i64)) -> Resu
         out: &mut String,
         inorder: &mut Vec<(u32, i64, i64, i64)>,
         height: &mut usize,
+        links_err: &mut Option<String>,
     ) -> Result<(), String> {
         if idx == EMPTY_REF {
             out.push_str(" L");
@@ -54,20 +57,21 @@ pub fn abs<T>(s: &VerifSnapshot<T>, ent: &dyn Fn(&T) -> (i64, i64, i64)) -> Resu
         }
         seen[i] = true;
         let nd = &s.nodes[i];
-        if nd.parent != parent {
-            return Err(format!("slot {} has parent field {} but is linked from {}", i, nd.parent as i64, parent as i64));
+        if nd.parent != parent && links_err.is_none() {
+            *links_err = Some(format!("slot {} has parent field {} but is linked from {}", i, nd.parent as i64, parent as i64));
         }
         if depth + 1 > *height {
             *height = depth + 1;
         }
         let (k, e, v) = ent(&nd.entity);
         out.push_str(&format!(" N {} {} {} {} {}", if nd.red { "R" } else { "B" }, i, k, e, v));
-        go(s, ent, nd.left, idx, depth + 1, seen, out, inorder, height)?;
+        go(s, ent, nd.left, idx, depth + 1, seen, out, inorder, height, links_err)?;
         inorder.push((idx, k, e, v));
-        go(s, ent, nd.right, idx, depth + 1, seen, out, inorder, height)?;
+        go(s, ent, nd.right, idx, depth + 1, seen, out, inorder, height, links_err)?;
         Ok(())
     }
-    go(s, ent, s.root, EMPTY_REF, 0, &mut seen, &mut tree, &mut inorder, &mut height)?;
+    let mut links_err = None;
+    go(s, ent, s.root, EMPTY_REF, 0, &mut seen, &mut tree, &mut inorder, &mut height, &mut links_err)?;
     // partition: {0} + tree + unused == 0..n, no repetition
     let slots_err = (|| -> Option<String> {
         let mut free = vec![false; n];
@@ -96,6 +100,7 @@ pub fn abs<T>(s: &VerifSnapshot<T>, ent: &dyn Fn(&T) -> (i64, i64, i64)) -> Resu
         unused_len: s.unused.len(),
         cap: s.unused_capacity,
         slots_err,
+        links_err,
     })
 }
 
@@ -127,7 +132,7 @@ pub fn structure_oracle<T>(s: &VerifSnapshot<T>, key: &dyn Fn(&T) -> i64) -> Res
         }
         let nd = &s.nodes[i];
         if nd.parent != parent {
-            return Err(format!("parent link of slot {} inconsistent", i));
+            return Err(format!("parent link of slot {} inconsistent (PARENT-LINK)", i));
         }
         let k = key(&nd.entity);
         if let Some(lo) = lo {
